@@ -280,6 +280,11 @@ ConnectSeq(T0, T, s, nstype, ifs) ==
 \* as implemented (named deviation ServicePortNameCollision): the derived port / link names are not checked
 ConnectBlockedImpl(T, s, i) ==
     IF ~Has(T, i) THEN QErr ELSE IF OwnerNode(T, i) = "" THEN TErr ELSE IF Peers(T, i) # {} THEN TErr ELSE ""
+\* connect_interface called through the handle of a service that has meanwhile been removed from the model: refused,
+\* and - like every refused call - nothing stays behind (the recorder creates and removes a throw-away service to get
+\* such a handle; "zz-stale" is never used as a name otherwise)
+ConnectViaStale(T, i) ==
+    IF ConnectBlockedImpl(T, "", i) # "" THEN Fail(T, ConnectBlockedImpl(T, "", i)) ELSE Fail(T, QErr)
 RECURSIVE FailsAsImpl(_, _, _, _)
 FailsAsImpl(T, s, nstype, ifs) ==                       \* outcome class of the failing call when names are not checked ("" = would not fail)
     IF ifs = <<>> THEN ""
@@ -662,6 +667,7 @@ ApplyRaw(T, o) ==
       [] o.op = "RemoveComponent" -> RemoveComponent(T, o.n, o.name)
       [] o.op = "AddService"     -> AddService(T, o.name, o.nstype, o.ifs, o.site, Fn(o.rp))
       [] o.op = "RemoveService"  -> RemoveService(T, o.name)
+      [] o.op = "ConnectViaStale" -> ConnectViaStale(T, o.i)
       [] o.op = "AddPortMirror"  -> AddPortMirror(T, o.name, o.from, o.to)
       [] o.op = "Collect"        -> R(T, "ok", [k |-> "attrs", v |-> Attrs(T)])
       [] o.op = "CollectASM"     -> R(T, "ok", [k |-> "attrs", v |-> Attrs(T)])
